@@ -38,7 +38,8 @@ def _export(what, n, maxlen):
 
 
 NAMES = {"ints": lambda x: x, "big": lambda x: 100 + x, "zero": lambda x: x - 1, "letters": lambda x: "abcde"[x - 1],
-         "words": lambda x: ["ab", "ba", "abc", "x1", "y_2"][x - 1]}
+         "words": lambda x: ["ab", "ba", "abc", "x1", "y_2"][x - 1],
+         "dash": lambda x: ["--1", "---42", "-a", "a-b", "x--"][x - 1]}
 
 
 def run_parse(case):
